@@ -114,9 +114,11 @@ def run_case(case, note, skip):
         continue
       if finite:
         floats[(bi, dk)] = (data, fout, ftens)
+  first_answer = {}
   for alg, c in lattice():
     lab = f'{op}|{label(alg, c)}'
-    if only is not None and not only.startswith(lab):
+    if only is not None and not only.startswith(lab) and \
+        not only.endswith('|resweep'):
       continue
     res['states'] += 1
     res['evals'] += 1
@@ -162,6 +164,7 @@ def run_case(case, note, skip):
           'accept_sets_differ', f'{lab}: update for the specific operator '
           f'{"accepts" if accepted else "refuses"}, "*" resolution '
           f'{"selects" if star else "skips"} it', lab))
+    first_answer[lab] = accepted
     cnt['accepted' if accepted else 'refused_at_update'] = cnt.get(
         'accepted' if accepted else 'refused_at_update', 0) + 1
     if not accepted and not star:
@@ -246,5 +249,29 @@ def run_case(case, note, skip):
           ff['detail'] = f.get('detail', '')
         res['fails'].append(_f('accepted_pair_' + f['kind'],
                                f"{sub}: {f['detail']}"[:400], sub, ff, grp))
+  # the accept/refuse answer is a function of (algorithm, op, config) only:
+  # sweep again in the opposite order and compare
+  if only is None or only.endswith('|resweep'):
+    for alg, c in reversed(list(lattice())):
+      lab = f'{op}|{label(alg, c)}'
+      try:
+        cobj = L.qtyping.OpQuantizationConfig.from_dict(json.loads(json.dumps(c)))
+      except Exception:  # pylint: disable=broad-except
+        continue
+      try:
+        L.quantizer.Quantizer(b'x').update_quantization_recipe(
+            '.*', opname, cobj, alg)
+        acc = True
+      except ValueError:
+        acc = False
+      except Exception:  # pylint: disable=broad-except
+        continue
+      res['transitions'] += 1
+      if first_answer.get(lab) is not None and first_answer[lab] != acc:
+        res['fails'].append(_f(
+            'acceptance_depends_on_history', f'{lab}: '
+            f'{"accepted" if first_answer[lab] else "refused"} in the forward '
+            f'sweep, {"accepted" if acc else "refused"} in the reverse sweep',
+            lab + '|resweep'))
   res['sample'] = {'selector': op, 'lattice_point': label(*next(lattice()))}
   return res
